@@ -72,6 +72,16 @@ def Cursor.run (c : Cursor) : List CursorOp → Cursor × List CursorOut
     let (c'', os) := Cursor.run c' ops
     (c'', o :: os)
 
+/-- several cursors of one connection: each call addresses one of them -/
+def stepAt (cs : List Cursor) (i : Nat) (op : CursorOp) : List Cursor :=
+  match cs[i]? with
+  | some c => cs.set i (c.step op).1
+  | none => cs
+
+def runMulti : List Cursor → List (Nat × CursorOp) → List Cursor
+  | cs, [] => cs
+  | cs, (i, op) :: rest => runMulti (stepAt cs i op) rest
+
 /-- rows handed to the caller by one call -/
 def CursorOut.delivered : CursorOut → List CRow
   | .none => []
